@@ -165,6 +165,8 @@ class C07(HistoryProp):
             ops.append(['db', E])
         if any(op[0] == 'clear' for op in ops) and src.n(2):
             return {'ops': ops, 'cached_atoms': True}
+        if src.n(4) == 0:
+            return {'ops': ops, 'cached_atoms': 'own'}       # atoms built with the public Atom class
         return {'ops': ops}
 
     def keep_op(self, op):
